@@ -581,6 +581,7 @@ package httpserver
 //@   loop 1 invariant forall(k, #i, len(cfgs()), len(cfgs()[k].HiddenFiles) == old(len(cfgs()[k].HiddenFiles)))
 
 //@ unit inspect_server_blocks frames=on props=C06,C15,C01 verify_pure=on filter=`httpserver\.httpContext\)\.InspectServerBlocks$|httpserver\.Address\)\.Normalize$`
+//@ ghost keyTaken int
 //@ func standardizeAddress
 //@ func (Address).String
 //@   pure
@@ -611,7 +612,12 @@ package httpserver
 //@ extern github.com/tmpim/casket/caskettls.NewConfig
 //@   ensures result1 == nil ==> result0 != nil
 //@ func (*httpContext).InspectServerBlocks
-//@   modifies Config.Hostname, E:*github.com/tmpim/casket/caskethttp/httpserver.SiteConfig, MD:map[string]*github.com/tmpim/casket/caskethttp/httpserver.SiteConfig, MD:map[string][]github.com/tmpim/casket/casketfile.Token, MV:map[string]*github.com/tmpim/casket/caskethttp/httpserver.SiteConfig, MV:map[string][]github.com/tmpim/casket/casketfile.Token, httpContext.siteConfigs
+//@   modifies Config.Hostname, E:*github.com/tmpim/casket/caskethttp/httpserver.SiteConfig, MD:map[string]*github.com/tmpim/casket/caskethttp/httpserver.SiteConfig, MD:map[string][]github.com/tmpim/casket/casketfile.Token, MV:map[string]*github.com/tmpim/casket/caskethttp/httpserver.SiteConfig, MV:map[string][]github.com/tmpim/casket/casketfile.Token, httpContext.siteConfigs, ghost:keyTaken
+//@   // C01: a site is filed under the key of its address AS WRITTEN (what every directive's GetConfig looks it up by): the key is
+//@   // taken before the -host / -port defaults are filled into the address
+//@   at call (Address).Key do keyTaken = 1
+//@   at call fieldstore:Address.Host before [key_is_taken_before_the_default_host_is_filled_in] keyTaken == 1
+//@   at call fieldstore:Address.Port before [key_is_taken_before_the_default_port_is_filled_in] keyTaken == 1
 //@   requires h != nil && h.keysToSiteConfigs != nil
 
 //@ unit trie_match frames=on props=C01 filter=`vhostTrie\)\.Match$`
